@@ -1,4 +1,5 @@
 """C02 -- a well-formed template renders to the documented expansion (structural clauses)."""
+import re
 from qlib import dataflow, astq, tab
 from qlib.model import AnalysisBroken
 from qlib.report import Rule
@@ -20,6 +21,7 @@ META = {
 META["explanation"] += " " + "(X-copykind) the copy constructor of TagBit keeps the kind of its source in every arm (a Make<K>Tag helper may be used only in an arm whose labels are exactly K). PR-looptag additionally: every scanner that takes the loop context receives the caller's current one."
 META["explanation"] += " " + '(PR-childflag) typestate pairing on the CFG of parse(): the in-a-child-tag flag is set only together with a push of the parent storage, and on every path out of the statement that pops it the flag is false exactly when the storage was popped. (SIGN-unit) a raw code unit is ordered against a constant only where the enclosing condition gives the same answer for signed and unsigned units (three-valued evaluation of the formula for "a unit >= 0x80" in both readings).'
 META["explanation"] += " " + '(IDX-digits) every call of the unchecked Digit::FastStringToNumber is preceded by a digit scan of the same (pointer, length), bounded by the length and by a constant number of digits, and by a return for a partial or empty match.'
+META["explanation"] += " " + "PR-looptag additionally: a loop's own Set record is checked against the loop chain starting at that loop's Parent."
 
 T = "Qentem::TemplateCore::"
 
@@ -296,11 +298,35 @@ def run(ctx):
             continue
         for c in astq.calls(g):
             key = (g.call_simple_name(c), len(g.call_args(c)))
-            if key not in takers or g.call_receiver(c) is not None:
+            if key not in takers:
+                # trailing parameters may have defaults: the overload with the fewest parameters that still takes all arguments
+                more = sorted(k for k in takers if k[0] == key[0] and k[1] > key[1] and takers[k] < key[1])
+                if not more:
+                    continue
+                key = more[0]
+            if g.call_receiver(c) is not None:
                 continue
             a = g.call_args(c)[takers[key]]
             at = g.text(g.strip_casts(a))
             r.ob(g.q, g.text(c)[:60], at in ctxvars, "loop context passed: `%s` (in scope: %s)" % (at, ctxvars), g.loc(c))
+    # the set of a loop is looked up in the context that ENCLOSES the loop: a call that checks a loop's own Set record against the
+    # loop chain starts at that loop's Parent, never at the loop itself (else set="items" value="item" matches its own value)
+    for g in m.functions:
+        if g.inst or g.cls != "Qentem::TemplateCore" or not g.cfg:
+            continue
+        for c in astq.calls(g, "checkLoopVariable"):
+            a = g.call_args(c)
+            if len(a) < 3:
+                continue
+            vt = g.text(a[1]).replace(" ", "")
+            mm = re.match(r"^\(?\*?(\w+)(\.|->)Set\)?$", vt)
+            if not mm:
+                continue
+            owner = mm.group(1)
+            ct = g.text(g.strip_casts(a[2])).replace(" ", "")
+            ok = ct in ("%s.Parent" % owner, "%s->Parent" % owner)
+            r.ob(g.q, g.text(c)[:60], ok, "the loop's own set is resolved from `%s`%s" % (ct, "" if ok else
+                 ": that is not the loop's parent -- the chain then starts at the loop itself and a set whose name begins with the loop's own value name is taken for that value"), g.loc(c))
     rules.append(r)
     rules.append(rule_child_flag(ctx, m, pf))
     from rules.common import rule_sign_unit, rule_fast_digits
